@@ -709,6 +709,24 @@ class Engine:
         if len(gens) != 1 or gens[0].is_async:
             raise OutOfSubset("comprehension with several generators")
         g = gens[0]
+        # engine lemma (exact): [i for i in range(lo, hi) if i != c]  ==  range(lo, hi) with the single value c removed
+        if (isinstance(g.iter, ast.Call) and isinstance(g.iter.func, ast.Name) and g.iter.func.id == "range" and not p.has("range") and len(g.iter.args) in (1, 2)
+                and isinstance(g.target, ast.Name) and isinstance(elt, ast.Name) and elt.id == g.target.id and len(g.ifs) == 1
+                and isinstance(g.ifs[0], ast.Compare) and len(g.ifs[0].ops) == 1 and isinstance(g.ifs[0].ops[0], ast.NotEq)
+                and isinstance(g.ifs[0].left, ast.Name) and g.ifs[0].left.id == g.target.id
+                and not any(isinstance(nn, ast.Name) and nn.id == g.target.id for nn in ast.walk(g.ifs[0].comparators[0]))):
+            for av, p1 in s.ev_list(list(g.iter.args) + [g.ifs[0].comparators[0]], p):
+                lo, hi = (z3.IntVal(0), av[0].t) if len(g.iter.args) == 1 else (av[0].t, av[1].t)
+                c = av[-1]
+                if not isinstance(c, SInt):
+                    raise OutOfSubset("range filter against a non-int")
+                n = z3.If(hi > lo, hi - lo, 0)
+                inside = z3.And(lo <= c.t, c.t < hi)
+                vi = z3.Int("rf!")
+                arr = z3.Lambda([vi], z3.If(z3.And(inside, lo + vi >= c.t), lo + vi + 1, lo + vi))
+                s.assumed.add("engine lemma: a range with one value filtered out (exact; cross-checked natively by the kernel's twin)")
+                yield SSeq(arr, z3.simplify(z3.If(inside, n - 1, n)), "int", "list"), p1
+            return
         for it, p1 in s.ev(g.iter, p):
             xs = s.iter_seq(it, p1)
             n_c = z3.simplify(xs.n)
